@@ -494,7 +494,7 @@ func exploreMain(t *testing.T, h Harness) {
 			rp := Replay{Property: v.Prop, Harness: h.Name, Variant: os.Getenv("VERIF_VARIANT"), Oracle: v.Oracle, Sig: v.Sig, Detail: det, Seed: seed, Tape: mt,
 				Fingerprint: fr.Fingerprint, Steps: fr.Steps, OrigDraws: r.Draws, MinDraws: tapeLen(mt), Faults: fr.Faults, Trace: abbreviate(fr.Log, 400)}
 			if replayDir != "" {
-				name := fmt.Sprintf("%s-%s-%d.json", strings.ReplaceAll(v.Prop, "*", "any"), h.Name, seed)
+				name := fmt.Sprintf("%s-%s-%s-%d.json", strings.ReplaceAll(v.Prop, "*", "any"), h.Name, slug(v.Oracle+"-"+v.Sig), seed)
 				path := filepath.Join(replayDir, name)
 				writeJSON(path, rp)
 				rec.Replay = path
@@ -514,6 +514,19 @@ func exploreMain(t *testing.T, h Harness) {
 	}
 	sort.Slice(sum.Violations, func(i, j int) bool { return sum.Violations[i].Seed < sum.Violations[j].Seed })
 	writeJSON(os.Getenv("VERIF_OUT"), sum)
+}
+
+func slug(s string) string {
+	b := []byte(s)
+	for i, c := range b {
+		if !(c >= 'a' && c <= 'z' || c >= 'A' && c <= 'Z' || c >= '0' && c <= '9' || c == '-') {
+			b[i] = '_'
+		}
+	}
+	if len(b) > 60 {
+		b = b[:60]
+	}
+	return string(b)
 }
 
 func firstLine(s string) string {
